@@ -13,7 +13,8 @@
     [b] is reached under a loop frame of the rule's stack (true for every valid Luau program);
     [stray_continues b]: the number of those that are not. *)
 From DL Require Import Lib.Bytes Lua.Syntax Lua.Census Model.Visit Model.Lowering Model.RemoveContinue
-  Proof.LoweringCensusRules Proof.LoweringCensusAll Proof.RemoveContinue Proof.RemoveContinueAll.
+  Proof.LoweringCensusRules Proof.LoweringCensusAll Proof.RemoveContinue Proof.RemoveContinueAll
+  Lua.Sem Proof.RemoveContinueSem.
 Open Scope N_scope.
 
 Theorem C07_removes_compound_assign : forall b, feature 0 (rule_compound_assign b) = 0.
@@ -158,6 +159,25 @@ Proof. exact all_lowered9_permutation. Qed.
 Print Assumptions C07_all_lowered9_permutation.
 Check C07_all_lowered9_permutation : forall rs, Permutation.Permutation rs lowering_rules9 ->
   forall b, continue_in_loops b = true -> lua51_tree (apply_rules rs b) = true.
+
+(** remove_continue, behaviour of the simplest shape (reference interpreter Lua/Sem.v): the
+    rule's output for [while c do SS continue end], i.e. [while c do <body_out SS> end] =
+    [local F = false  repeat SS F = true break until true  if not F then break end], computes
+    exactly what [while c do local F = false SS F = true continue end] ([body_ref]) computes -
+    same result or error, same store, same events - for every [SS] that keeps the flag
+    discipline ([flag_discipline]: no [continue] escapes [SS], the flag stays visible, a
+    [break] leaves it [false]; [SS] may [break] and [return]).  PARTIAL: the link from
+    [body_ref] to the input (a dead local shifts cell addresses) is not proved. *)
+Theorem C07_continue_while_sound_partial : forall d id ss, flag_discipline d id ss ->
+  forall n rho va c s,
+    exec_while d n rho va c (body_ref id ss) s <> Fuel ->
+    exec_while d (10 + n) rho va c (body_out id ss) s = exec_while d n rho va c (body_ref id ss) s.
+Proof. exact continue_while_sound_partial. Qed.
+Print Assumptions C07_continue_while_sound_partial.
+Check C07_continue_while_sound_partial : forall d id ss, flag_discipline d id ss ->
+  forall n rho va c s,
+    exec_while d n rho va c (body_ref id ss) s <> Fuel ->
+    exec_while d (10 + n) rho va c (body_out id ss) s = exec_while d n rho va c (body_ref id ss) s.
 
 (** the fuel the rules are run with is sufficient: any larger fuel gives the same tree *)
 Theorem C07_fuel_sufficient : forall H, In H lowering_hooks ->
